@@ -13,7 +13,7 @@ RULE = ("cases: exhaustive pairs on the integer lattices {-2..2}^3 / {-1,0,1}^4,
         "round trips, public entry points, plus every internal join/meet of the repository's tests. A judged call is non-trivial "
         "and distinct by the digest of (monitor, operand arrays); every judged join/meet position is compared with the exact "
         "rational span/intersection."
-        " Also judged: the public entry points (join / meet functions and the join / meet methods) with the same contract as the internal dispatcher, and histories on 3D line objects (used in a meet, then transformed, copied or overwritten in place, then used again).")
+        " Also judged: the public entry points (join / meet functions and the join / meet methods) with the same contract as the internal dispatcher, and histories on 3D line objects (used in a meet, then transformed, copied or overwritten in place, then used again); coordinates in 16- and 32-bit integer representation whose products leave the range of the representation but not that of int64.")
 SHARDS = (8, 16)
 REQUIRED = ["jm.result", "contains", "roundtrip"]
 ASSUMPTIONS = ["numpy einsum/linalg are correct", "Fraction arithmetic is exact", "wrapping a callable does not change its behaviour",
